@@ -10,6 +10,7 @@ pairs.  See DESIGN.md §4 C17.
 
 import copy
 import json
+import os
 
 from sim import core, docgen, runner, shellscen
 
@@ -464,6 +465,84 @@ def gen_lib_plan(rng, idx):
             '_index': idx}
 
 
+# ---------------------------------------------------------------------
+#   histories over a corpus of real documents: every LaTeX input of the
+#   repository's own tests (used as documents only). Pairs are biased
+#   towards documents that use the same macro or environment, so that
+#   whatever one call leaves behind for that name is looked at by the next.
+# ---------------------------------------------------------------------
+
+_CORPUS = None
+
+
+def corpus():
+    global _CORPUS
+    if _CORPUS is None:
+        import re
+        path = os.path.join(os.path.dirname(os.path.abspath(__file__)),
+                            'corpus_c17.json')
+        docs = json.load(open(path))['docs']
+        by_name = {}
+        for i, d in enumerate(docs):
+            names = set(re.findall(r'\\[A-Za-z]+', d['latex']))
+            names |= set('env:' + e for e in
+                         re.findall(r'\\begin\{([A-Za-z*]+)\}', d['latex']))
+            d['names'] = sorted(names)
+            for n in names:
+                by_name.setdefault(n, []).append(i)
+        shared = sorted(n for n, l in by_name.items() if len(l) >= 2
+                        and n not in ('\\begin', '\\end'))
+        _CORPUS = (docs, by_name, shared)
+    return _CORPUS
+
+
+def corpus_opts(rng, doc):
+    o = base_opts(rng)
+    if doc.get('opts') and rng.random() < 0.5:
+        o.update(doc['opts'])
+    r = rng.random()
+    if r < 0.12 and doc['names']:
+        o['extr'] = ','.join(n.lstrip('\\') for n in rng.sample(
+            [n for n in doc['names'] if not n.startswith('env:')] or ['x'],
+            1))
+    elif r < 0.18:
+        o['nosp'] = True
+    elif r < 0.24:
+        o['seqs'] = True
+    elif r < 0.30:
+        o['unkn'] = True
+    elif r < 0.34:
+        o['char'] = True
+    return o
+
+
+def gen_corpus_plan(rng, idx):
+    docs, by_name, shared = corpus()
+    ops = []
+    for _ in range(rng.choice([1, 1, 2])):
+        name = rng.choice(shared)
+        ia, ib = rng.choice(by_name[name]), rng.choice(by_name[name])
+        if rng.random() < 0.15:
+            ib = ia                 # same document, options may differ
+        a, b = docs[ia], docs[ib]
+        po = corpus_opts(rng, a)
+        qo = dict(po) if rng.random() < 0.35 else corpus_opts(rng, b)
+        tag = 'corpus:' + name.replace('|', '/')
+        ops.append(mk_op(a['latex'], po, ml=a.get('ml') or rng.random() < 0.15,
+                         role='polluter', carrier=tag))
+        for _ in range(rng.choice([0, 0, 0, 1])):
+            c = rng.choice(docs)
+            ops.append(mk_op(c['latex'], corpus_opts(rng, c),
+                             ml=rng.random() < 0.15))
+        ops.append(mk_op(b['latex'], qo, ml=b.get('ml') or rng.random() < 0.15,
+                         role='probe', carrier=tag))
+    if rng.random() < 0.15:
+        ops.append(copy.deepcopy(ops[0]))
+        ops.append(copy.deepcopy(ops[-2]))
+    return {'system': 'lib', 'kind': 'lib', 'ops': ops[:8], 'files': {},
+            '_index': idx, 'corpus': True}
+
+
 def strip_op(op):
     return {k: v for k, v in op.items() if k not in ('role', 'carrier')}
 
@@ -705,8 +784,19 @@ def server_observe(plan, requests):
         c['response'] = resps[i] if i < len(resps) else None
         a = c['err0']
         b = c['err1'] if c['err1'] is not None else len(obs['stderr_bytes'])
-        c['stderr'] = obs['stderr_bytes'][a:b].decode('utf-8', 'replace')
+        c['stderr'] = drop_request_log(
+            obs['stderr_bytes'][a:b].decode('utf-8', 'replace'))
     return obs, per
+
+
+def drop_request_log(text):
+    """The server's stderr carries diagnostics of the filter (compared: they
+    are results of filtering) and the request log of http.server
+    ('<host> - - [<date>] ...': operational logging, which may legitimately
+    count requests - not compared)."""
+    import re
+    return ''.join(l for l in text.splitlines(True)
+                   if not re.match(r'\S+ - - \[[^\]]*\] ', l))
 
 
 def evaluate_server(plan):
@@ -807,8 +897,12 @@ def evaluate(plan):
 
 
 def gen_plan(rng, idx):
+    if os.environ.get('VERIF_C17_MODE') == 'corpus':    # measurement only
+        return gen_corpus_plan(rng, idx)
     if idx % 3 == 2:
         return gen_server_plan(rng, idx)
+    if idx % 6 == 4:
+        return gen_corpus_plan(rng, idx)
     return gen_lib_plan(rng, idx)
 
 
